@@ -310,10 +310,11 @@ PROPS["C06"] = dict(
 )
 
 PROPS["C08"] = dict(
+    gen=[("c20", "ServlinVerif/Gen/C20Tables.lean")],
     suites=["c08", "c08c", "c08d"],
     thorough_suites=["c08s"],
     shards={"c08s": 2},
-    lean_modules=["ServlinVerif.Props.C06", "ServlinVerif.Props.C05", "ServlinVerif.Props.C06Chunked", "ServlinVerif.Props.C07Prefix"],
+    lean_modules=["ServlinVerif.Props.C06", "ServlinVerif.Props.C05", "ServlinVerif.Props.C06Chunked", "ServlinVerif.Props.C07Prefix", "ServlinVerif.Props.C08Fallback"],
     audit="Audit/C08.lean",
     rule="7 response families (Vec, empty, static str, File, TempFile, event stream with 2 events, empty event stream) x write error injected at "
          "every byte offset 0..200 (260) x 3 short-write schedules x Pending; File/TempFile bodies with declared length in {1,2,40,1000,70000} "
@@ -572,6 +573,9 @@ ADD = {
         explanation="Props/C07Prefix.lean: C07_no_false_complete — no proper prefix of a complete output is accepted by the decoder as complete (decode_extend: acceptance is stable under extension of the input; "
                     "the complete output decodes with nothing left over)."),
     "C08": dict(
+        explanation="Props/C06Chunked.lean: C08_failed_stream_incomplete (a body stream that fails is written as head + whole chunks without terminator, and the strict parser answers 'incomplete'); "
+                    "Props/C08Fallback.lean: C08_error_responses_wellformed — every response of the error mapping (table regenerated from the code on every run) serialises without error, parses back as exactly one "
+                    "message, and carries connection: close when 5xx: the single well-formed 500 the connection can still carry.",
         rule="Thorough tier only: suite c08s — a client stops reading for 12 s (and 1 s) in the middle of a 32 MiB response and resumes: exactly that one response must arrive, nothing may follow."),
     "C09": dict(explanation="Resource bounds as theorems over every state, input, fault and handler behaviour: C09_disk_bound (one read_body_to_file(M) never copies more than M+1 body bytes into its file; "
                          "model counter `written`), C09_accepted_within_limit (an accepted upload holds at most M bytes, exactly the declared number when declared), C09_mem_bound (a body handed over in memory has at most S bytes).",
